@@ -222,7 +222,9 @@ class ReaderModel(object):
                 # dispatch through dictionary: method = d.get(node.tag); method(node)
                 if nm and nm.startswith('self.') and nm[5:] in self.methods:
                     callee = self.methods[nm[5:]]
-                    params = [a.arg for a in callee.args.args][1:]
+                    params = [a.arg for a in callee.args.args]
+                    if not any(P.src(d) == 'staticmethod' for d in callee.decorator_list):
+                        params = params[1:]
                     for i, a in enumerate(n.args):
                         if i < len(params) and isinstance(a, ast.Name) and a.id in env:
                             t = var_tags(a.id, n)
@@ -310,7 +312,8 @@ class ReaderModel(object):
         for mname, g in self.methods.items():
             for c in P.calls_in(g):
                 if P.call_name(c) == 'self.' + f.name:
-                    a = P.bind_call(c, f).get(key.id)
+                    static = any(P.src(d) == 'staticmethod' for d in f.decorator_list)
+                    a = P.bind_call(c, f, skip_self=not static).get(key.id)
                     if a is None:
                         d = P.param_defaults(f).get(key.id)
                         a = d
